@@ -210,6 +210,7 @@ def run(ctx):
         finally:
             os.chdir(old)
     ctx.counted('REALPATH verdicts across trees and tree changes', n, n // 2, [{'path': 'pkg/data/x', 'pattern': '**/x'}])
+    ctx.corr('REALPATH decision (_Match.match)', corr.corr_realpath(rng, [trees.DESIGNED[0], trees.DESIGNED[3], spec_link, spec_real], 150 if ctx.quick else 600))
     return ctx.finish(RULE)
 
 
